@@ -57,6 +57,9 @@ def obligations(tier):
         for cname, ai, rx in CONFIGS[:2]:
             obs.append(_ob(f"csv/rm/{q_repr(q)}/{cname}", q=q, kind="rm", ai=ai, reindex=rx, storage="csv", n=3 if th else 2, alpha="sel", reopen=(cname == "scan"), split_op=True, budget=300 if th else 90))
     for cname, ai, rx in CONFIGS[:2]:
+        # surviving rows whose strings contain CR / CRLF must come back unmodified through the live handle
+        obs.append(_ob(f"csv/rm-cr/{cname}", q=("tag", "k", "==", "a"), kind="rm", ai=ai, storage="csv", n=3, alpha="cr", also=["tag"], then_insert=True, torder="ooo", budget=120))
+        obs.append(_ob(f"csv/rm-cr-twice/{cname}", q=("tag", "k", "==", "a"), kind="rm", ai=ai, storage="csv", n=3, alpha="cr", also=["tag"], pre_remove=True, torder="sym", csv_times=2, budget=120))
         obs.append(_ob(f"csv/drop/{cname}", kind="drop", name="n", ai=ai, storage="csv", n=3, alpha="sel", reopen=True, budget=120))
         obs.append(_ob(f"csv/remove_all+insert/{cname}", kind="rmall", ai=ai, storage="csv", n=2, alpha="sel", then_insert=True, budget=120))
     if th:
